@@ -137,6 +137,7 @@ pub fn run_c15(tier: &str) -> i32 {
                 continue;
             }
             rep.tv(1);
+            rep.st(1);
             if l == " //TXTPP#run x" || l == "-TXTPP#writex" {
                 rep.sample(json!({"line": l, "reference_classification": format!("{:?}", classify(l))}));
             }
@@ -174,6 +175,7 @@ pub fn run_c15(tier: &str) -> i32 {
                 rep.sample(json!({"directive_line": line, "continuations_tried": conts.len(), "example": ["   x", " // x", " //"]}));
             }
             rep.tv(conts.len());
+            rep.tr(conts.len());
             rep.add("pairs", conts.len() as u64);
             shapes.insert(format!("cont-{:?}:{}", h.kind, (!h.ws.is_empty() as u8) | ((!h.prefix.is_empty() as u8) << 1)));
         }
@@ -204,6 +206,7 @@ pub fn run_c15(tier: &str) -> i32 {
                 }
                 let r = b.run(&src, Mode::Build, true, true);
                 rep.tv(1);
+                rep.tr(1);
                 rep.add("end_to_end_compared", 1);
                 let before = rep.n_violations();
                 compare_c01(rep, "end-to-end", &src, true, &m, &r);
